@@ -22,6 +22,32 @@ namespace Cubed.C10
 
 open Cubed.History
 
+/-! ### two concrete sessions used for the examples and the refutation -/
+
+/-- x = a+1; y = x*2; to_zarr(x, p); y.compute()  —  pool: 0 = a (in-memory input 0), 1 = x = F₁(a),
+2 = y = F₂(x); target 0 = p -/
+def witness : List Step :=
+  [.input true 0, .derive 1 [0] true true, .derive 2 [1] true true, .store [(1, 0)] true true,
+   .compute [2] true false]
+
+def beforeStore : State := (State.run softAll {} (witness.take 3)).1
+def afterStore : State := (State.run softAll {} (witness.take 4)).1
+
+/-- A history that satisfies the hypothesis of `C10_partial`, over a diamond: a; x = F₁(a); y = F₂(x, a);
+z = F₃(y); to_zarr(z, p) eagerly (z has no dependants yet); w = F₄(z, x) derived afterwards; compute [w, x]
+optimized with resume; lazy store of the input a (identity branch, new array 5); recompute y unoptimized;
+v = from_zarr(p) (array 6); compute [v, w]. -/
+def safeHist : List Step :=
+  [.input true 0, .derive 1 [0] true true, .derive 2 [1, 0] true true, .derive 3 [2] true true,
+   .store [(3, 0)] true true, .derive 4 [3, 1] true true, .compute [4, 1] true true,
+   .store [(0, 1)] false true, .compute [2] false false, .fromZarr 0, .compute [6, 4] true false]
+
+def safeEnd : State := (State.run softAll {} safeHist).1
+
+/-- the invariant holds at the end of the safe session (hypothesis of (a) and (b) is inhabited, non-trivially:
+7 arrays, 2 store targets, shared sub-graphs, a re-targeted op) -/
+theorem C10_example_session_inv : Inv safeEnd := inv_run_of_noLate softAll safeHist {} inv_init (by decide)
+
 /-- (a) `linked_compute_correct`.  In a state where every consumer reads where its producer currently
 writes (`Inv` = structural well-formedness ∧ `Linked` ∧ store contents are built values), `compute` of any
 arrays — optimized or not, resuming or not, whatever the fusion size policy — succeeds, returns exactly
@@ -37,12 +63,28 @@ theorem C10_linked_compute_correct (soft : List OpObj → List XOp → Nat → B
   obtain ⟨s', vs, h1, h2, h3, h4, h5, h6, h7⟩ := compute_ok soft s hi idxs opt resume as has hne
   exact ⟨s', vs, h1, h2, inv_of_compute_ok hi h3 h4 h5 h6, h7⟩
 
+example : ∃ s' vs, safeEnd.compute softAll [4, 2, 6] true true = some (s', vs) ∧ Inv s' := by
+  have hsome : (mapOpt (fun i => safeEnd.arrs[i]?) [4, 2, 6]).isSome = true := by decide
+  cases has : mapOpt (fun i => safeEnd.arrs[i]?) [4, 2, 6] with
+  | none => rw [has] at hsome; cases hsome
+  | some as =>
+    have hne : as.isEmpty = false := by
+      have := mapOpt_length _ _ _ has
+      cases as with
+      | nil => simp at this
+      | cons _ _ => rfl
+    obtain ⟨s', vs, h1, _, h3, _⟩ := C10_linked_compute_correct softAll safeEnd C10_example_session_inv [4, 2, 6] true true as has hne
+    exact ⟨s', vs, h1, h3⟩
+
 /-- (b) `step_preserves_linked_partial`.  Every API call except a late re-targeting keeps the invariant,
 and behaves as the property demands (`GoodStep`). -/
 theorem C10_step_preserves_linked_partial (soft : List OpObj → List XOp → Nat → Bool) (s : State)
     (hi : Inv s) (st : Step) (hsafe : st.lateRetarget s = false) :
     Inv (s.step soft st).1 ∧ GoodStep soft s st :=
   step_inv soft s hi st hsafe
+
+example : (Step.store [(4, 7)] true true).lateRetarget safeEnd = false := by decide  -- w has no dependants: (b) applies
+example : (Step.store [(1, 0)] true true).lateRetarget beforeStore = true := by decide  -- x has: (b) does not apply
 
 /-- The property at full strength: along every history from the empty session, every call is good. -/
 def C10_full : Prop :=
@@ -52,6 +94,9 @@ def C10_full : Prop :=
 theorem C10_partial (soft : List OpObj → List XOp → Nat → Bool) (hist : List Step)
     (h : NoLate soft {} hist = true) : AllGood soft {} hist :=
   allGood_of_noLate soft hist {} inv_init h
+
+example : NoLate softAll {} safeHist = true := by decide
+example : AllGood softAll {} safeHist := C10_partial softAll safeHist (by decide)
 
 /-- (d) What an array was built to be is fixed at build time — for **every** history, late re-targeting
 included: no call changes `denote` of an existing array, and pool entries keep their identity. -/
@@ -70,6 +115,8 @@ theorem C10_writes_subset_targets (soft : List OpObj → List XOp → Nat → Bo
           wlocOf s.heap e.out = some l) :=
   compute_frame soft s idxs opt resume s' vs h
 
+example : (safeEnd.compute softAll [4, 2, 6] false false).isSome = true := by decide
+
 /-- (f) Source data (in-memory inputs, Zarr arrays opened for reading) is never modified — along every
 history, late re-targeting included. -/
 theorem C10_sources_never_written (soft : List OpObj → List XOp → Nat → Bool) (pre post : List Step)
@@ -83,6 +130,8 @@ theorem C10_sources_never_written (soft : List OpObj → List XOp → Nat → Bo
       | cons st rest ih => intro s hs; exact ih _ (basic_step soft s hs st).1
     exact this pre {} basic_init
   exact sources_intact_run soft post _ hb k v h
+
+example : (State.run softAll {} (safeHist.take 1)).1.store (.ext 0) = some (.src 0) := by decide
 
 /-- (h) The code shapes that Model/History.lean transcribes are the ones found in the tree under test
 (facts regenerated from the source by harness/extract_c10.py on every run): `_store_array` re-targets a lazy
@@ -103,14 +152,6 @@ theorem C10_model_matches_source :
   decide
 
 /-! ### the witness: x = a+1; y = x*2; to_zarr(x, p); y.compute() -/
-
-/-- pool: 0 = a (in-memory input 0), 1 = x = F₁(a), 2 = y = F₂(x); target 0 = p -/
-def witness : List Step :=
-  [.input true 0, .derive 1 [0] true true, .derive 2 [1] true true, .store [(1, 0)] true true,
-   .compute [2] true false]
-
-def beforeStore : State := (State.run softAll {} (witness.take 3)).1
-def afterStore : State := (State.run softAll {} (witness.take 4)).1
 
 /-- the fourth call *is* a late re-targeting … -/
 example : (Step.store [(1, 0)] true true).lateRetarget beforeStore = true := by decide
@@ -151,39 +192,14 @@ theorem C10_full_fails : ¬ C10_full := by
     rw [hd] at hden
     cases hden
 
-/-! ### non-vacuity: the hypotheses are satisfiable on non-trivial sessions -/
-
-/-- A safe history over a diamond: a; x = F₁(a); y = F₂(x, a); store x's *leaf* sibling … here:
-z = F₃(y); to_zarr(z, p) eagerly (z has no dependants); w = F₄(z, x) derived afterwards; compute [w, x]
-optimized with resume; lazy store of the input a (identity branch); recompute y unoptimized. -/
-def safeHist : List Step :=
-  [.input true 0, .derive 1 [0] true true, .derive 2 [1, 0] true true, .derive 3 [2] true true,
-   .store [(3, 0)] true true, .derive 4 [3, 1] true true, .compute [4, 1] true true,
-   .store [(0, 1)] false true, .compute [2] false false, .fromZarr 0, .compute [6, 4] true false]
-
-example : NoLate softAll {} safeHist = true := by decide
-
-/-- so `C10_partial` applies to it (and `Inv` holds at its end: the hypothesis of (a), (b) is inhabited) -/
-example : AllGood softAll {} safeHist := C10_partial softAll safeHist (by decide)
-
-example : Inv (State.run softAll {} safeHist).1 := by
-  have : ∀ (hist : List Step) (s : State), Inv s → NoLate softAll s hist = true → Inv (s.run softAll hist).1 := by
-    intro hist
-    induction hist with
-    | nil => intro s hs _; exact hs
-    | cons st rest ih =>
-      intro s hs hn
-      simp only [NoLate, Bool.and_eq_true, Bool.not_eq_eq_eq_not, Bool.not_true] at hn
-      exact ih _ (step_inv softAll s hs st hn.1).1 hn.2
-  exact this safeHist {} inv_init (by decide)
+/-! ### further concrete facts about the safe session -/
 
 /-- the last compute of the safe history returns the built values (from_zarr of p is z's value) -/
 example : ((State.run softAll {} (safeHist.take 10)).1.step softAll (.compute [6, 4] true false)).2
     = .values [.app 3 [.app 2 [.app 1 [.src 0], .src 0]],
                .app 4 [.app 3 [.app 2 [.app 1 [.src 0], .src 0]], .app 1 [.src 0]]] := by decide +kernel
 
-/-- in that session fusion really happens: computing w = F₄(z, x) alone absorbs nothing that is stored,
-computing y alone absorbs x -/
+/-- fusion really happens in it: computing z = F₃(F₂(x, a)) alone absorbs y and x into z's op -/
 example : ((finalize softAll (State.run softAll {} (safeHist.take 4)).1.heap
     [((State.run softAll {} (safeHist.take 4)).1.arrs[3]?).getD default] true).plan.map (fun e => (e.out, e.members)))
     = [(3, [2, 1])] := by decide
